@@ -377,6 +377,16 @@ func (c *Canary) handleTCP(eh *ethernet.Frame, iph *ipv4.Header, data []byte) er
 			c.send(state, []byte{}, tcp.SYN|tcp.ACK)
 			state.SendNext++
 			state.State = SocketSynReceived
+
+			// a connection attempt: report it to the knock detector (every
+			// later path returns before the end of this function when SYN is set)
+			c.knockChan <- KnockTCPPort{
+				SourceHardwareAddr:      eh.Source,
+				DestinationHardwareAddr: eh.Destination,
+				SourceIP:                iph.Src,
+				DestinationIP:           iph.Dst,
+				DestinationPort:         hdr.Destination,
+			}
 			return nil
 		}
 	}
@@ -618,16 +628,6 @@ func (c *Canary) handleTCP(eh *ethernet.Frame, iph *ipv4.Header, data []byte) er
 			// transmitted if possible without incurring undue delay.
 			// fmt.Printf("ACK'ing %d %d\n", state.SendNext, state.RecvNext)
 			c.send(state, []byte{}, tcp.ACK)
-		}
-	}
-
-	if hdr.Ctrl&tcp.SYN == tcp.SYN {
-		c.knockChan <- KnockTCPPort{
-			SourceHardwareAddr:      eh.Source,
-			DestinationHardwareAddr: eh.Destination,
-			SourceIP:                iph.Src,
-			DestinationIP:           iph.Dst,
-			DestinationPort:         hdr.Destination,
 		}
 	}
 
